@@ -237,7 +237,7 @@ class Scanner:
             self.skip_trivia()
 
         if self.accept_terminal():
-            self.accept_postfix_op()
+            self.accept_postfix_ops()
             return
 
         if self.peek() == "(":
@@ -254,7 +254,7 @@ class Scanner:
         else:
             self.error("expected a closing paren")
 
-        self.accept_postfix_op()
+        self.accept_postfix_ops()
 
     def accept_terminal(self) -> bool:  # noqa: PLR0911, PLR0912, PLR0915
         if value := self.scan(RE_PUSH_LITERAL):
@@ -355,7 +355,11 @@ class Scanner:
 
         return False
 
-    def accept_postfix_op(self) -> None:
+    def accept_postfix_ops(self) -> None:
+        while self.accept_postfix_op():
+            pass
+
+    def accept_postfix_op(self) -> bool:
         self.skip_trivia()
         ch = self.peek()
 
@@ -382,6 +386,10 @@ class Scanner:
                 self.emit(TokenKind.RBRACE, self.next())
             else:
                 self.error("expected a closing brace")
+        else:
+            return False
+
+        return True
 
     def accept_string(self) -> bool:
         if self.peek() != '"':
